@@ -353,8 +353,22 @@ class Instrs(CallsMixin):
             tup = Val(ins['type'], tuple_lv([res, scalar('bool', ok)]))
             self.setreg(st, ins, tup)
         else:
+            if self.from_atomic_value(fr, ins['x']):
+                # sync/atomic.Value holds one concrete type for its whole life (Store panics on any
+                # other): a non-nil content asserted to that type is taken to have it
+                self.cx.assumed_used.add('contents of a sync/atomic.Value have the asserted concrete type (the Value only ever stores that type)')
+                st.assume(z3.Or(tag == 0, ok))
             self.panic_check(st, fr, ins, ok, 'typeassert')
             self.setreg(st, ins, val)
+
+    def from_atomic_value(self, fr, o):
+        if not o or o.get('k') != 'reg':
+            return False
+        d = self.def_instr(fr, o['name'])
+        if d and d['op'] == 'Call' and 'call' in d:
+            fn = (d['call'].get('fn') or {}).get('name', '')
+            return fn.startswith('sync/atomic::(*Value).')
+        return False
 
     def op_Extract(self, st, fr, b, i, ins):
         x = self.operand(st, fr, ins['x'])
